@@ -156,6 +156,14 @@ def absline(line: str):
         b = "head"
     elif rest.startswith("```"):
         b = "fence"
+    elif rest == "* * *":
+        b = "hr"
+    elif rest == "| a | b |":
+        b = "thead"
+    elif rest == "| --- | --- |":
+        b = "tdelim"
+    elif rest == "| 1 | 2 |":
+        b = "trow"
     elif rest == "code":
         return None
     else:
